@@ -71,7 +71,7 @@ func buildMalformedUpdate(r *simrt.Rand, pc PeerCfg, dut DUTCfg, pfx Prefix, tag
 		a.MED = u32p(5)
 	}
 	spec := UpdateSpec{Announce: []NLRI{{Prefix: pfx}}, Attrs: a.Attrs(v6), V6: v6, ASN4: pc.PeerASN4}
-	kind := r.Intn(11)
+	kind := r.Intn(13)
 	var m malformedUpdate
 	switch kind {
 	case 8:
@@ -169,6 +169,24 @@ func buildMalformedUpdate(r *simrt.Rand, pc PeerCfg, dut DUTCfg, pfx Prefix, tag
 		raw[alOff], raw[alOff+1] = byte(al>>8), byte(al)
 		raw[16], raw[17] = byte(len(raw)>>8), byte(len(raw))
 		m.why, m.class = fmt.Sprintf("attribute %d (fixed size 4) declared and carried with length %d", code, raw[off+2]), "attr_length"
+	case 11, 12:
+		// a zero-length attribute (ATOMIC_AGGREGATE) declared and carried with octets: appended as
+		// the last attribute, its value either noise or something that reads like one more NLRI
+		// (a decoder that skips the length check and does not consume the value would take it for one)
+		val := []byte{24, 198, 51, byte(100 + r.Intn(50))}
+		if v6 || r.Chance(0.3) {
+			val = make([]byte, 1+r.Intn(6))
+			for i := range val {
+				val[i] = byte(r.Uint64())
+			}
+		}
+		aa := append([]byte{0x40, AttrAtomicAggr, byte(len(val))}, val...)
+		end := attrStart + al
+		raw = append(raw[:end:end], append(aa, raw[end:]...)...)
+		al += len(aa)
+		raw[alOff], raw[alOff+1] = byte(al>>8), byte(al)
+		raw[16], raw[17] = byte(len(raw)>>8), byte(len(raw))
+		m.why, m.class = fmt.Sprintf("ATOMIC_AGGREGATE (fixed size 0) declared and carried with length %d", len(val)), "attr_length"
 	case 10:
 		// IPv6 NLRI inside MP_REACH_NLRI with a prefix length beyond 128
 		if !v6 {
